@@ -74,3 +74,10 @@ Theorem C05_connections_independent : forall e p sched ss i s,
   proj ev i (irun sock op ev (step e p) ss sched) = run sock op ev (step e p) s (ops_of op i sched).
 Proof. intros e p. exact (interleaving_independent sock op ev (step e p)). Qed.
 Print Assumptions C05_connections_independent.
+
+(* ... and so the order in which the server happens to interleave the connections does not matter to any of them *)
+Theorem C05_schedule_irrelevant : forall e p sched1 sched2 ss i s,
+  nth_error ss i = Some s -> ops_of op i sched1 = ops_of op i sched2 ->
+  proj ev i (irun sock op ev (step e p) ss sched1) = proj ev i (irun sock op ev (step e p) ss sched2).
+Proof. intros e p. exact (schedule_irrelevant sock op ev (step e p)). Qed.
+Print Assumptions C05_schedule_irrelevant.
